@@ -365,8 +365,8 @@ def _variants_for(ctx, deep, rng, first):
     allv = ["whole", "whole-dp1", "seg-trunc", "seg-compl", "seg-dp1", "swapped-pieces", "swapped-all", "swapped-dp1"]
     if ctx.thorough or deep:
         return allv
-    # quick: whole + three of the others per mesh (all of them on the first mesh)
-    return allv if first else ["whole"] + rng.sample(allv[1:], 3)
+    # quick: all of them on the first two meshes, then whole + four of the others
+    return allv if first else ["whole"] + rng.sample(allv[1:], 4)
 
 
 def _plan(ctx, deep):
@@ -374,10 +374,14 @@ def _plan(ctx, deep):
     var_pool = [{"perturb"}, {"perturb", "rigid"}, {"perturb", "relabel"}, {"perturb", "rigid", "relabel"},
                 {"perturb", "scale", "relabel"}, {"stretch", "perturb"}, {"rigid", "relabel"}]
     if not ctx.thorough and not deep:
-        a = rng.choice(["lshape-r2", "lshape-alt-r2"])
-        b = rng.choice(["torus-r2", "union:cube3+octahedron-r2", "union:icosahedron-r1+cube3"])
-        c = rng.choice(["cube3", "octahedron-r2", "icosahedron-r1", "tetrahedron-r3", "cube4"])
-        return [(a, set(rng.choice(var_pool))), (b, set(rng.choice(var_pool))), (c, set(rng.choice(var_pool)))]
+        # evaluation is cheap (1-5 s per mesh single-threaded), the two JIT specialisations are not: quick takes one mesh
+        # of every family plus random further ones while the budget lasts
+        names = [rng.choice(["lshape-r2", "lshape-alt-r2"]), "torus-r2",
+                 rng.choice(["union:cube3+octahedron-r2", "union:icosahedron-r1+cube3"]),
+                 rng.choice(["cube3", "octahedron-r2", "icosahedron-r1", "tetrahedron-r3", "cube4"])]
+        rest = [n for n in MESHES if n not in names]
+        rng.shuffle(rest)
+        return [(n, set(rng.choice(var_pool))) for n in names + rest[:4]]
     plan = []
     for nm in MESHES:
         plan.append((nm, set()))
@@ -394,8 +398,8 @@ def oracle(ctx, deep=False, cal=False, only=None):
     t_start = time.time()
     rng = ctx.rng
     old_threads = numba.get_num_threads()
-    numba.set_num_threads(max(1, min(old_threads, int(os.environ.get("VERIF_ORACLE_THREADS", "2")))))
-    budget = float(os.environ.get("C02_ORACLE_BUDGET_S", "0")) or (ctx.pick(130.0, 800.0) if not deep else 3000.0)
+    numba.set_num_threads(max(1, min(old_threads, int(os.environ.get("VERIF_ORACLE_THREADS", "1")))))
+    budget = float(os.environ.get("C02_ORACLE_BUDGET_S", "0")) or (ctx.pick(120.0, 800.0) if not deep else 3000.0)
     orders = (LOW_RUNGS if (ctx.thorough or deep) else []) + LADDER
     n_in, n_out = (ctx.pick(10, 24), ctx.pick(12, 30)) if not deep else (60, 80)
     n_fun = ctx.pick(2, 3) if not deep else 5
@@ -461,7 +465,7 @@ def oracle(ctx, deep=False, cal=False, only=None):
             # spaces
             swap_set = [labels[0]] if len(labels) == 2 else [labels[0], labels[2]]
             sig = np.where(np.isin(D, swap_set), -1.0, 1.0)
-            variants = _variants_for(ctx, deep, rng, first=(mi == 0))
+            variants = _variants_for(ctx, deep, rng, first=(mi <= 1))
             builders = _build_variants(api, grid, D, labels, swap_set, sig, variants, res, mesh)
             per = {}   # (variant, order) -> (worst error, detail)
             for oi, order in enumerate(orders):
@@ -493,23 +497,25 @@ def oracle(ctx, deep=False, cal=False, only=None):
                     ctx.log("cal", mesh["desc"], grid.number_of_elements, order,
                             " ".join("%s=%.1e/%.1e" % (v_, per[(v_, True, order)][0], per[(v_, False, order)][0])
                                      for v_ in builders))
-            # criteria
+            # criteria (one counterexample per variant / side / kind of failure: the highest failing order is reported)
             for vname in builders:
                 for side in (True, False):
                     sname = "interior" if side else "exterior"
                     seq = [per[(vname, side, o)] for o in orders]
-                    for oi, order in enumerate(orders):
-                        w, det = seq[oi]
-                        if det is None:
-                            continue
-                        bound = ORDER_BOUND[order]
-                        if w > bound:
-                            what = "top-order-error" if order == orders[-1] else "order-error"
-                            _report(res, mesh, D, vname, sname, what, order, w, bound, det, P, dh, c,
-                                    [s[0] for s in seq], orders)
-                        if oi > 0 and w > FLOOR and w > DECAY * seq[oi - 1][0]:
-                            _report(res, mesh, D, vname, sname, "ladder-not-decreasing", order, w,
-                                    DECAY * seq[oi - 1][0], det, P, dh, c, [s[0] for s in seq], orders)
+                    lad = [s_[0] for s_ in seq]
+                    bad_bound = [oi for oi, o in enumerate(orders) if seq[oi][1] is not None and seq[oi][0] > ORDER_BOUND[o]]
+                    bad_decay = [oi for oi in range(1, len(orders)) if seq[oi][1] is not None
+                                 and seq[oi][0] > FLOOR and seq[oi][0] > DECAY * seq[oi - 1][0]]
+                    if bad_bound:
+                        oi = bad_bound[-1]
+                        what = "top-order-error" if oi == len(orders) - 1 else "order-error"
+                        _report(res, mesh, D, vname, sname, what, orders[oi], seq[oi][0], ORDER_BOUND[orders[oi]],
+                                seq[oi][1], P, dh, c, lad, orders, failing=[orders[i] for i in bad_bound])
+                    if bad_decay:
+                        oi = bad_decay[-1]
+                        _report(res, mesh, D, vname, sname, "ladder-not-decreasing", orders[oi], seq[oi][0],
+                                DECAY * seq[oi - 1][0], seq[oi][1], P, dh, c, lad, orders,
+                                failing=[orders[i] for i in bad_decay])
             done += 1
             ctx.log(f"C02 oracle: {mesh['desc']} ({grid.number_of_elements} el, {mesh['family']}, labels {labels} "
                     f"{scheme}, {int(inside.sum())} in / {int((~inside).sum())} out) variants {list(builders)} top order "
@@ -645,7 +651,7 @@ _FAIL = {"top-order-error": "error at the top regular order exceeds the bound",
          "ladder-not-decreasing": "error does not shrink when the regular order is raised"}
 
 
-def _report(res, mesh, D, vname, sname, what, order, w, bound, det, P, dh, c, ladder, orders):
+def _report(res, mesh, D, vname, sname, what, order, w, bound, det, P, dh, c, ladder, orders, failing=None):
     key = f"laplace-green-representation-slp-dp0-minus-dlp-p1-{vname}-{mesh['family']}-{sname}-{what}"
     if sum(1 for cx in res.counterexamples if cx["key"] == key) >= 3:
         return
@@ -654,7 +660,7 @@ def _report(res, mesh, D, vname, sname, what, order, w, bound, det, P, dh, c, la
                   order=order, point=P[:, k].tolist(), dist_over_h=float(dh[k]), value=det["value"],
                   expected=float(f["expected"][k]), scale=f["scale"], relative_error=w, bound=bound,
                   a=np.round(f["A"], 12).tolist(), b=np.round(f["B"], 12).tolist(), centre=c.tolist(),
-                  ladder={str(o): float("%.3e" % x) for o, x in zip(orders, ladder)})
+                  ladder={str(o): float("%.3e" % x) for o, x in zip(orders, ladder)}, failing_orders=failing)
     if mesh["E"].shape[1] <= 128:
         detail["vertices"] = mesh["V"].tolist()
         detail["elements"] = mesh["E"].tolist()
